@@ -405,7 +405,7 @@ RC_KIND = {"rcl": ("list", ["a", "b", "c"], {"a": "int", "b": "str", "c": "int"}
 ALL_STATEFUL = ["pt", "pl", "rcl", "rca", "rct", "rcu", "rcn", "cmb"]
 
 
-def cfg_module(table, machines, init="{<<>>}", slim_sort=False):
+def cfg_module(table, machines, init="{<<>>}", slim_sort=False, thorough=False):
     """The generated model module: universes of keys, values, rows for this run."""
     t = table
     sort3 = '{"a", "b"}' if slim_sort else '{"a", "b", "c"}'
@@ -431,7 +431,7 @@ MCRCConfs == [
   rcl |-> [mode |-> "list", cols |-> ABC, kindof |-> KO, rows |-> {{R1, R2, R3}}, dicts |-> {'{D2(R3)}' if slim_sort else '{D1(R1), D2(R3)}'},
            short |-> {'{<<I(1)>>, <<I(1), X, I(10), I(4)>>}' if t else '{}'},
            baddicts |-> {'{<< <<"a", I(1)>> >>, D1(R1) \\o << <<"zz", I(5)>> >>}' if t else '{}'},
-           sortnames |-> {'{"a", "b"}' if slim_sort else '{"a", "b", "c", "nocol"}'}],
+           sortnames |-> {'{"a", "b"}' if slim_sort else '{"a", "b", "c", "nocol"}' if t or thorough else '{"a", "b", "c"}'}],
   rca |-> [mode |-> "arr", cols |-> ABC, kindof |-> KA, rows |-> {{A1, A2, A3}}, dicts |-> {{D2(A3)}},
            short |-> {'{<<I(1)>>}' if t else '{}'}, baddicts |-> {{}}, sortnames |-> {sort3}],
   rct |-> [mode |-> "typed", cols |-> ABC, kindof |-> KO, rows |-> {{R1, R2, R3}}, dicts |-> {{D2(R2)}},
@@ -507,7 +507,7 @@ def run_mc(sub, table, depth, rows, thorough, invariants, machines=None, init="{
     """One TLC run of HelpersMC.  table: complete state graph with the ill-formed operations; else histories of `depth`."""
     wd = H2.wd(sub)
     machines = machines or (ALL_STATEFUL + ["grid", "comb"] if table else ALL_STATEFUL)
-    mod = cfg_module(table, machines, init, slim_sort).replace("{FIRSTKEYS}", C.tla_str(set(firstkeys))).replace("{FIRSTFLAVS}", C.tla_str(set(firstflavs)))
+    mod = cfg_module(table, machines, init, slim_sort, thorough).replace("{FIRSTKEYS}", C.tla_str(set(firstkeys))).replace("{FIRSTFLAVS}", C.tla_str(set(firstflavs)))
     with open(os.path.join(wd, "HelpersCfg.tla"), "w") as f:
         f.write(mod)
     return C.run_tlc(wd, "HelpersCfg", cfg_text(table, depth, rows, thorough, invariants), workers=workers, coverage=coverage)
@@ -590,7 +590,8 @@ def replay_group(job):
                 continue
             bad = diff_fields(exp, got)
             if bad:
-                why = why or ("accessors", {f: exp.get(f) for f in bad}, {f: got[f] for f in bad}, bad)
+                why = why or (("accessors", {"one of": exp["alt"]}, got, bad) if "alt" in exp else
+                              ("accessors", {f: exp.get(f) for f in bad}, {f: got[f] for f in bad}, bad))
                 continue
             nxt.append(b)
         mnxt = [b for b in malive if (branches[b][1][step] == "[]" and b in nxt) or
@@ -988,7 +989,7 @@ def run(replay=None):
     H2.set_wd(C.workdir(PID))
     rnd = C.rng(20)
     SEED = C.seed()
-    FULL_EVERY = 8 if thorough else 16
+    FULL_EVERY = 8 if thorough else 24
     got = witness_known(V)
     # ---- 3a: record seeded random executions of the real classes (before any thread exists: pmap forks)
     ntr = (1500, 500, 1500, 500) if thorough else (250, 80, 300, 100)
@@ -1040,7 +1041,8 @@ def run(replay=None):
         if isinstance(v, BaseException):
             raise v
     rt = res["table"]
-    dbg("tlc done", {k: (round(v.wall, 1), v.distinct) for k, v in res.items() if hasattr(v, "wall")}, round(time.time() - t0, 1))
+    dbg("tlc done", {k: (round(v.wall, 1), v.distinct) for k, v in res.items() if hasattr(v, "wall")},
+        "trace", round(res["trace"][2].wall, 1), round(time.time() - t0, 1))
     # ---- tables
     ti, tm = {}, {}
     static = []
